@@ -65,7 +65,7 @@ func vfArbStore(nMan int, dashSpelling bool) {
 	vfStore = map[model.Name]*Manifest{}
 	names := []model.Name{{Host: "h", Namespace: "n", Model: "a", Tag: "t"}, {Host: "h", Namespace: "n", Model: "b", Tag: "t"}, {Host: "h", Namespace: "n", Model: "c", Tag: "t"}}
 	for i := 0; i < nMan; i++ {
-		m := &Manifest{SchemaVersion: 2}
+		m := &Manifest{SchemaVersion: 2, filepath: "/models/manifests/" + names[i].Model} // as the real Manifests() fills it in
 		nl := verifChoice(vfMaxLayers + 1)
 		for j := 0; j < nl; j++ {
 			m.Layers = append(m.Layers, Layer{MediaType: vfMT(), Digest: vfDigest(verifChoice(3), dashSpelling && verifChoice(2) == 1)})
